@@ -13,6 +13,6 @@ for d in sorted(glob.glob(os.path.join(V, "seeded", "*"))):
         c = json.load(open(os.path.join(d, "confirmed.json")))
     except Exception as e:
         print(f"| {n} | (unconfirmed: {e}) | | | |"); continue
-    caught = "; ".join(f"{x['check']}: {x['first_finding'][:110]}" if x["exit"] == 1 else f"{x['check']}: MISSED (exit {x['exit']})" for x in c["checks"])
+    caught = "; ".join(f"{x['check']}: {x['first_finding'][:90]}" if x["exit"] == 1 else f"{x['check']}: MISSED (exit {x['exit']})" for x in c["checks"])
     ok = c["repository_tests_with_change"] == "pass" and c["demo_with_change"] == "fails" and c["demo_without_change"] == "passes"
-    print(f"| {n} | {m.get('summary','')[:200]} | {m.get('needs','')[:160]} | {caught}{'' if ok else ' (NOT CONFIRMED)'} | {'yes' if (n in needed or m.get('check_strengthened')) else 'no'} |".replace("\n", " "))
+    print(f"| {n} | {m.get('summary','')[:170]} | {m.get('needs','')[:120]} | {caught}{'' if ok else ' (NOT CONFIRMED)'} | {'yes' if (n in needed or m.get('check_strengthened')) else 'no'} |".replace("\n", " "))
